@@ -54,6 +54,13 @@ type Clause struct {
 	E     SExpr
 }
 
+// SinkDecl: `sink <pointer expr> implements <Type.Method>` in the contract of a function that
+// hands the object to callees as an interface value.
+type SinkDecl struct {
+	Obj  string
+	Impl string
+}
+
 type LoopContract struct {
 	Ordinal   int
 	Invs      []Clause
@@ -97,6 +104,9 @@ type FuncContract struct {
 	AsmLabels map[string]*LoopContract // assembly: invariants by label
 	IsAsm     bool
 	AllocBound *Clause
+	GhostAt     map[string][]string // site -> ghost lvalues initialised there (fresh objects)
+	GhostAtDefs []Clause            // their defining clauses (Site set)
+	Sinks       []SinkDecl // objects of this package that callees reach through an interface (callback frame rule)
 	GhostEntry  bool     // the ghost update happens at entry (ghostdef clauses are then proved at exit like any ensures)
 	InlineCalls []string // callees whose body is inlined here although they have a contract of their own
 	Opaque     []string // defined spec functions treated as uninterpreted in this function's obligations
@@ -611,6 +621,24 @@ func loadContractFile(file string, out map[string]*FuncContract) error {
 			for _, m := range splitTopLevel(rest) {
 				cur.Modifies = append(cur.Modifies, m)
 			}
+		case "ghost-at":
+			// ghost-at call f#k: Lval, Lval   -- the ghost state of an object allocated by this
+			// function is given its initial value just before that call
+			i := strings.Index(rest, ":")
+			if i < 0 {
+				return fail(fmt.Errorf("ghost-at: want `ghost-at call name#k: lvalues`"))
+			}
+			site := strings.TrimSpace(rest[:i])
+			if cur.GhostAt == nil {
+				cur.GhostAt = map[string][]string{}
+			}
+			cur.GhostAt[site] = append(cur.GhostAt[site], splitTopLevel(strings.TrimSpace(rest[i+1:]))...)
+		case "sink":
+			parts := strings.Split(rest, " implements ")
+			if len(parts) != 2 {
+				return fail(fmt.Errorf("sink: want `sink <expr> implements <Type.Method>`"))
+			}
+			cur.Sinks = append(cur.Sinks, SinkDecl{strings.TrimSpace(parts[0]), strings.TrimSpace(parts[1])})
 		case "opaque":
 			cur.Opaque = append(cur.Opaque, strings.Fields(rest)...)
 		case "inline-calls":
@@ -624,9 +652,9 @@ func loadContractFile(file string, out map[string]*FuncContract) error {
 			for _, m := range splitTopLevel(rest) {
 				cur.Ghost = append(cur.Ghost, m)
 			}
-		case "requires", "ensures", "onpanic", "invariant", "decreases", "writes", "assert", "lemma", "alloc-bound", "typeinv", "typeinv-entry", "ghostdef", "assumes", "rely":
+		case "requires", "ensures", "onpanic", "invariant", "decreases", "writes", "assert", "lemma", "alloc-bound", "typeinv", "typeinv-entry", "ghostdef", "assumes", "rely", "transitive", "ghostdef-at":
 			site := ""
-			if kw == "assert" || kw == "rely" {
+			if kw == "assert" || kw == "rely" || kw == "ghostdef-at" {
 				i := strings.LastIndex(rest, " @ ")
 				if i < 0 {
 					return fail(fmt.Errorf("assert needs `@ call name#k`"))
@@ -649,6 +677,13 @@ func loadContractFile(file string, out map[string]*FuncContract) error {
 				// at the site (part of the rely condition, listed among the assumptions)
 				c.Kind = "rely"
 				cur.Asserts = append(cur.Asserts, c)
+			case "ghostdef-at":
+				cur.GhostAtDefs = append(cur.GhostAtDefs, c)
+			case "transitive":
+				// a postcondition that relates the post-state to the pre-state transitively (x == old(x),
+				// x >= old(x) ...): it also holds across any number of calls (used by the sink rule)
+				c.Kind = "transitive"
+				cur.Ensures = append(cur.Ensures, c)
 			case "assumes":
 				// a physical bound no caller can (or needs to) establish: assumed by the function,
 				// not asserted at call sites, listed among the assumptions of every check that uses it
